@@ -4,6 +4,7 @@ package pppoe
 
 import (
 	"bytes"
+	"encoding/binary"
 
 	"go.uber.org/zap"
 )
@@ -32,7 +33,7 @@ func verifLCPAny(tag string) (*LCPStateMachine, *vSent) {
 		negotiated: LCPNegotiatedOptions{LocalMRU: cfg.MRU, LocalMagic: cfg.MagicNumber},
 	}
 	m.identifier = ndU8(tag + ".id")
-	m.lastIdentifier = m.identifier
+	m.lastIdentifier = ndU8(tag + ".lastid") // echo, code-reject and terminate packets advance identifier past it
 	m.restartCount = ndInt(tag+".rc", 0, cfg.MaxConfigure)
 	if lcpWaiting(m.state) {
 		m.startTimer() // representation invariant: a waiting state has its restart timer running
@@ -49,7 +50,9 @@ func VerifC09_LCPReceive() {
 }
 
 // C11 (one inductive step): from any state satisfying the invariant
-//   Opened => peerAcked && weAcked ; AckRcvd => peerAcked ; AckSent => weAcked
+//
+//	Opened => peerAcked && weAcked ; AckRcvd => peerAcked ; AckSent => weAcked
+//
 // any single event re-establishes it; replies echo identifiers; waiting states keep a timer;
 // a timeout either retransmits (and consumes the restart counter) or gives up.
 func VerifC11_LCPStep() {
@@ -128,6 +131,15 @@ func VerifC11_LCPStep() {
 		peerAcked = true
 	}
 	post := m.state
+	if acked && pkt != nil {
+		opts, wellFormed := verifRefOptions(pkt.Data)
+		vAssert(wellFormed, "Configure-Ack for a request part of whose option list was never examined (an address or MRU may hide there)")
+		for _, o := range opts {
+			if o.Type == LCPOptMRU {
+				vAssert(len(o.Data) == 2 && binary.BigEndian.Uint16(o.Data) >= 64 && binary.BigEndian.Uint16(o.Data) <= 1492, "LCP Configure-Ack for an MRU outside 64..1492")
+			}
+		}
+	}
 
 	vAssert(post != LCPStateOpened || (peerAcked && weAcked), "Opened only with both sides' latest Configure-Request acknowledged")
 	vAssert(post != LCPStateAckRcvd || peerAcked, "Ack-Rcvd only if the peer acked our latest Configure-Request")
